@@ -1195,6 +1195,13 @@ class Simplifier:
     @annotate_types_on_change
     def simplify_literals(self, expression: exp.Expr, root: bool = True) -> exp.Expr:
         if isinstance(expression, exp.Binary) and not isinstance(expression, exp.Connector):
+            if isinstance(expression, exp.Predicate):
+                # Comparisons aren't associative: (x < 3) < 2 can't be folded through its operands
+                return (
+                    self._simplify_binary(expression, expression.left, expression.right)
+                    or expression
+                )
+
             return self._flat_simplify(expression, self._simplify_binary, root)
 
         if isinstance(expression, exp.Neg) and isinstance(expression.this, exp.Neg):
